@@ -410,6 +410,8 @@ SCENARIOS = [
     ("x86_64-linux-symbol-and-cr3-and-option", "gen_x86_64_linux",
      dict(levels=4, stext=True, in_rootopt="phys", in_top=True, in_l4=True, in_cr3=True, phys_base_opt=False)),
     ("x86_64-linux-xen_xlat-0", "gen_x86_64_linux", dict(xen_xlat0=True, rootsrc="cr3")),
+    ("x86_64-linux-2m-directmap-pat-bit", "gen_x86_64_linux", dict(gran=2, pat=1.0, rootsrc="cr3", levels=4, stext=True)),
+    ("x86_64-linux-1g-directmap-pat-bit", "gen_x86_64_linux", dict(gran=3, pat=0.5, rootsrc="sym", phys_base_opt=True, levels=4, stext=True)),
     # ---- histories: the same addrxlat_sys_t initialised more than once
     ("history-xen_xlat-then-bare-metal", "gen_history",
      dict(kind="xenxlat->bare", first=("gen_x86_64_linux", dict(levels=4, rootsrc="cr3", xen_xlat1=True, ver=G.VER(4, 4, 0))),
@@ -419,8 +421,12 @@ SCENARIOS = [
     ("history-linux-then-xen-by-version", "gen_history",
      dict(kind="linux->xen", first=("gen_x86_64_linux", dict(levels=4, rootsrc="cr3", phys_base_opt=True)),
           last=("gen_x86_64_xen", dict(variant="4.4", ver=G.XENVER(4, 6), in_none=True)))),
-    ("history-5level-then-4level", "gen_history", dict(kind="5level->4level")),
-    ("history-4level-then-5level", "gen_history", dict(kind="4level->5level")),
+    ("history-5level-then-4level", "gen_history",
+     dict(kind="5level->4level", first=("gen_x86_64_linux", dict(levels=5, rootsrc="cr3", l5src="num")),
+          last=("gen_x86_64_linux", dict(levels=4, rootsrc="cr3", l5src="stext")))),
+    ("history-4level-then-5level", "gen_history",
+     dict(kind="4level->5level", first=("gen_x86_64_linux", dict(levels=4, rootsrc="sym", phys_base_opt=True, l5src="cr4")),
+          last=("gen_x86_64_linux", dict(levels=5, rootsrc="sym", phys_base_opt=True, l5src="num", stext=True)))),
     ("history-x86_64-then-arm", "gen_history",
      dict(kind="arch->arch", first=("gen_x86_64_linux", dict(rootsrc="cr3")), last=("gen_arm_linux", dict(rootopt="kphys", stext=True, phys_base_opt=False, rcaps=3)))),
     ("history-aarch64-then-ia32", "gen_history",
@@ -594,7 +600,7 @@ def run(R):
         tot["complete_but_failed"] += st.get("complete_but_failed", 0)
         tot["after_failed_init"] += st.get("after_failed_init", 0)
         for k in ("levels", "gran", "rootsrc", "variant", "pae", "vsrc", "l5src", "rcaps", "sme", "page_bits", "va_bits", "new_layout", "hsrc",
-                  "dm", "phys_base_opt", "stext", "vbsrc", "history", "be", "xen_xlat0"):
+                  "dm", "phys_base_opt", "stext", "vbsrc", "history", "be", "xen_xlat0", "pat"):
             if k in img.desc:
                 hk = "%s.%s=%s" % (gen[4:], k, img.desc[k])
                 hist[hk] = hist.get(hk, 0) + 1
@@ -641,7 +647,19 @@ def run(R):
                              "read cache of ctx.c transparent for a deterministic get_page (observed)"],
                broken_theorems=proof["broken"], theorems=THEOREMS,
                evaluations=tot["q"] + tot["rt"] + unit_scan_checked, distinct_nontrivial=nontriv,
-               rule="images: per-architecture generators (x86_64 Linux 4/5-level, KASLR text/direct-map offsets, phys_base incl. negative, "
+               rule="images (implementation-only: generators + Python walks, no Lean model of addrxlat_sys_os_init): every optional input the "
+                    "set-up code reads is present/absent independently (x86_64: rootpgt option, init_top_pgt, init_level4_pgt, cr3, cr4, "
+                    "NUMBER(pgtable_l5_enabled), virt_bits, _stext, _text, phys_base, page_offset_base, sme_mask, xen_xlat=0/xen_p2m_mfn, version "
+                    "codes on both sides of 2.6.11/2.6.27/2.6.31/4.8.0/4.13.0; Xen: rootpgt, cr3, pgd_l4, phys_base, version or none; ia32: rootpgt, "
+                    "cr3, swapper_pg_dir, phys_bits, vmap_area_list/vmlist with each offset missing; riscv64: rootpgt, swapper_pg_dir, "
+                    "va_kernel_pa_offset, VA_BITS, virt_bits, PAGE_OFFSET; aarch64: rootpgt, swapper_pg_dir, kimage_voffset, TCR_EL1_T1SZ, VA_BITS, "
+                    "virt_bits, _stext, version on both sides of 5.4.0; arm (short descriptors: sections, supersections, large and small pages, "
+                    "either endianness): rootpgt KPHYS/MACHPHYS/KVADDR, swapper_pg_dir, _stext, phys_base, read capabilities incl. KVADDR-only); "
+                    "large pages with the PAT bit; histories = the same addrxlat_sys_t set up 2-3 times (Xen->Linux, Linux->Xen, xen_xlat->bare "
+                    "metal, 5<->4 levels, architecture A->B, failed->good, same twice), judged after the LAST set-up exactly like a fresh system; "
+                    "a mapped address that neither path translates although the image supplies a readable root and the paging depth, and a "
+                    "hardware walk that translates an address the image does not map, count as violations; nothing is judged after a failed "
+                    "osinit.  Also: per-architecture generators (x86_64 Linux 4/5-level, KASLR text/direct-map offsets, phys_base incl. negative, "
                     "version code present/absent, 4K/2M/1G direct map, root via symbol/cr3/option, each VMCOREINFO symbol present/absent, SME mask; "
                     "Xen hypervisor 3.2..4.x incl. BIGMEM; ia32 PAE/non-PAE with vmap_area_list/vmlist/neither; riscv64 Sv39/48/57; aarch64 4K/16K/64K granule, "
                     "39..48 VA bits, linear map in either half) + forced scenarios; queries at +-1 page "
@@ -655,9 +673,14 @@ def run(R):
                           "images are laid out the way the supported kernels lay out memory: linear direct map, linear kernel text, "
                           "holes of at least one page between linear and non-linear areas, fixed placements consistent with the version code "
                           "when the page tables are not reachable",
-                          "x86_64 (Linux, Xen hypervisor), ia32 (Linux), riscv64 (Linux) and aarch64 (Linux, up to 48 VA bits) set-up code is exercised by "
-                          "images; s390x, arm, ppc64 set-up, Linux-under-Xen (xen_xlat/p2m) and KVADDR-only read capabilities are not covered by "
-                          "this check (their hardware walks are proved in C02)",
+                          "x86_64 (Linux, Xen hypervisor), ia32 (Linux), riscv64 (Linux), aarch64 (Linux, up to 48 VA bits) and arm (Linux, short "
+                          "descriptors, TTBCR.N=0) set-up code is exercised by images; s390x and ppc64 set-up and a real Linux-under-Xen image "
+                          "(xen_xlat=1 with machine-address page tables, p2m, m2p) are not covered by this check (xen_xlat=1 occurs only as the first "
+                          "stage of a history); KVADDR-only read capabilities only for arm (their hardware walks are proved in C02)",
+                          "completeness (a mapped address must be translatable) is judged only for images whose generator states that the library was "
+                          "told enough (Img.root_known: a root it can read in the order of precedence the set-up code documents, and the paging "
+                          "depth); the arm, ia32, riscv64, aarch64 and history extensions are implementation-only (image generators + Python "
+                          "oracle), the theorems are unchanged",
                           "the theorems cover the generic layout machinery and the scanners on the x86-64 paging forms; the x86_64.c decision "
                           "logic is covered by the image stream only"]
 
